@@ -196,7 +196,8 @@ for k in KINDS:
             continue
         h("props_%s_%s" % (k, g), "ob_props", ps, symbolic="node fields (opcode, registers, imm, csr), probe register" + (", 32 register contents" if g == "misc" else ""),
           desc="%s node: %s" % (k, d), bounds="unwind 34", stubs=UUID,
-          cap=900 if (g == "rw" and k in ("arith", "branch", "store")) else None, mem=6 if g == "rw" else 3,
+          cap=(1500 if k == "branch" else 900) if (g == "rw" and k in ("arith", "branch", "store")) else None, mem=6 if g == "rw" else 3,
+          tier="thorough" if (g == "rw" and k == "branch") else "quick",
           optional=(g == "misc" and k in ("basic", "la", "csri", "funcentry")) or (g in ("kill", "gen") and k in ("basic", "la", "csri", "branch")))
 for k in ("arith", "iarith", "jalr", "branch", "store", "load", "csr"):
     h("oracle_ni_" + k, "ob_props", ["C08"], tier="thorough", symbolic="node fields, two register files",
@@ -275,7 +276,7 @@ prop("C19", outside="MemoryLocation strings (format!-based), AvailableValueMap (
 # (A token-range harness - real Lexer::next() on a concrete statement behind four symbolic layout characters drawn from
 # newline/space/tab - was built and measured: all five statements hit the 900 s cap; one symbolic character in front of
 # Lexer::next is already too much, as in the design-phase probe.  Not registered.)
-h("serde_regset_single", "ob_misc", ["C19"], symbolic="register r", desc="RegisterSet {r} serializes to the sequence [r]", bounds="unwind 34")
+h("serde_regset_single", "ob_misc", ["C19"], tier="thorough", cap=1500, mem=10, symbolic="register r", desc="RegisterSet {r} serializes to the sequence [r]", bounds="unwind 34")
 
 # ---------------------------------------------------------------------------
 # C01 (and C06): engine E4 - the facts of whole programs are inductive invariants
